@@ -140,19 +140,20 @@ def get_username(uid):
 def set_owner_process(uid, gid, initgroups=False):
     """ set user and group of workers processes """
 
-    if gid:
-        if uid:
-            try:
-                username = get_username(uid)
-            except KeyError:
-                initgroups = False
+    if initgroups:
+        try:
+            username = get_username(uid)
+        except KeyError:
+            initgroups = False
 
-        if initgroups:
-            os.initgroups(username, gid)
-        elif gid != os.getgid():
-            os.setgid(gid)
+    # initgroups() only sets the supplementary groups, the group id
+    # itself still has to be switched; 0 is a valid id to switch to
+    if initgroups:
+        os.initgroups(username, gid)
+    if gid != os.getgid() or gid != os.getegid():
+        os.setgid(gid)
 
-    if uid and uid != os.getuid():
+    if uid != os.getuid() or uid != os.geteuid():
         os.setuid(uid)
 
 
